@@ -522,7 +522,9 @@ func TestC29(t *testing.T) {
 	res := hist.BFS(t, &hist.Config{Name: "floodsub-release", New: func() hist.Sys { return newRsys(maxSubs, maxH, maxMsgs) },
 		MaxDepth: depth, Deadline: run.Deadline()})
 	agg.AddHist(res)
+	exploreE2(t, run, agg)
 	agg.Finish(false)
+	agg.RequireTag("handler ran")
 	if run.NViolations() == 0 && (statInv.Load() == 0 || statUnsub.Load() == 0 || statRaceEvent.Load() == 0) {
 		evid.Fatal("vacuous: %d handler invocations, %d unsubscribe announcements, %d publish+release events", statInv.Load(), statUnsub.Load(), statRaceEvent.Load())
 	}
